@@ -58,18 +58,20 @@
   (assert-hash-table "hash-table-exists?" table)
   (and (hash-table-cell table key #f) #t))
 
-(define hash-table-update!
-  (let ((not-found (cons 'not-found '())))
-    (lambda (table key func . o)
-      (assert-hash-table "hash-table-update!" table)
-      (let ((cell (hash-table-cell table key not-found)))
-        (set-cdr! cell (if (eq? not-found (cdr cell))
-                           (if (pair? o)
-                               (func ((car o)))
-                               (error "hash-table-update!: key not found" key))
-                           (func (if (and (pair? o) (pair? (cdr o)))
-                                     ((cadr o) (cdr cell))
-                                     (cdr cell)))))))))
+(define (hash-table-update! table key func . o)
+  (assert-hash-table "hash-table-update!" table)
+  (let ((cell (hash-table-cell table key #f)))
+    (if cell
+        (set-cdr! cell (func (if (and (pair? o) (pair? (cdr o)))
+                                 ((cadr o) (cdr cell))
+                                 (cdr cell))))
+        ;; don't add the key until the thunk and func have returned
+        (hash-table-set!
+         table
+         key
+         (func (if (pair? o)
+                   ((car o))
+                   (error "hash-table-update!: key not found" key)))))))
 
 (define hash-table-update!/default
   (let ((not-found (cons 'not-found '())))
